@@ -52,7 +52,9 @@ fn main() {
     let mut out = Out::default();
     // CPU-time watchdog (see common::hang): generous; one guarded call on these small inputs takes
     // milliseconds to seconds (tens of seconds with debug assertions in D >= 4)
-    let cpu_limit = if tier == Tier::Thorough { 1500.0 } else { 400.0 };
+    // (observed maxima for one call: 57 s in the quick tier, ~12 min wall on a fully loaded machine for a
+    // D >= 4 insertion with debug assertions in the thorough tier)
+    let cpu_limit = if tier == Tier::Thorough { 2400.0 } else { 400.0 };
     dverif::common::hang::start(outp.clone(), prop.clone(), cpu_limit);
     delaunay::verif::ticks_enable(true);
     if !dverif::props::run(&ctx, &mut out) {
